@@ -40,8 +40,12 @@ Unchanged(ev) ==
   /\ ev.size = psize /\ ev.reserved = reserved /\ ev.nres = nres /\ ev.align = align
   /\ LoggedIds(ev) = Ids /\ \A i \in Ids : ResOf(ev, i).off = place[i]
 
+\* Events carry j = 0 when the driver knows that the very same event (same operation after the same
+\* prefix) is the judged final event of another execution in the log (transition-cover batches):
+\* its effect is applied, its verdict is not recomputed.
+Judged(ev) == ~("j" \in DOMAIN ev /\ ev.j = 0)
 Judge(ev, extra) ==
-  /\ bad' = Verdict(ev) \cup extra
+  /\ bad' = (IF Judged(ev) THEN Verdict(ev) \cup extra ELSE {})
   /\ (bad' = {} \/ PrintT(<<"V", l, bad'>>))
 
 \* adopt the logged placement / counters
@@ -53,7 +57,7 @@ Args(ev) == <<LoggedPlace(ev), ev.size, ev.reserved, ev.nres, ev.align>>
 Deviation(ev, why) ==
   /\ UNCHANGED <<live, cells>> /\ BindLog(ev) /\ Judge(ev, {why})
 RefusedAsExpected(ev) ==
-  /\ Refused /\ bad' = (IF Unchanged(ev) THEN {} ELSE {"RefusedButChanged"})
+  /\ Refused /\ bad' = (IF Unchanged(ev) \/ ~Judged(ev) THEN {} ELSE {"RefusedButChanged"})
   /\ (bad' = {} \/ PrintT(<<"V", l, bad'>>))
 
 IsEvent(e) == l <= Len(Log) /\ Log[l].e = e /\ l' = l + 1
